@@ -16,6 +16,8 @@
      [I 4; I t; cfg]                    ReadCache(lookup file): [] = miss, else the head in the record
      [I 5; I t; I size; S hash]         ReadRemote(lookup): the head in the response
      [I 6; I t; cfg]                    WriteCache(lookup file, record with that head)
+     [I 7; I t; I site]                 release of a pause of thread t inside checkTrees (site 1) or
+                                        checkRecord (site 0)
    results = [I r ...] per thread: 0 ErrGONOSUMDB, 1 lines returned, 2 error
    finalcfg = cfg after the run. *)
 From Verif.Base Require Import Bytes Wire.
@@ -98,6 +100,7 @@ Definition dec_event (s : state) (v : val) : option obs :=
       | Some x => Some (OStep t (LWriteCache (fst (ck s t)) (snd (ck s t)) x))
       | None => None
       end
+  | VL [VI 7; VI t; VI x] => Some (OYield (Z.to_nat t) (if x =? 0 then SiteRecord else SiteTrees))
   | _ => None
   end.
 
@@ -133,6 +136,7 @@ Definition replay_case (a : val) : val :=
               | inr (ENotEnabled k) => step_err k (B "call")
               | inr (EValues k) => step_err k (B "values")
               | inr (EGrow k) => step_err k (B "grow")
+              | inr (ESite k) => step_err k (B "site")
               | inl s1 =>
                   let s2 := finish (length (s_threads s1)) s1 in
                   if negb (all_done s2) then err_msg (B "final: unfinished")
